@@ -166,13 +166,17 @@ def pcapng_capture(draw, messages):
     ts = 1.0
     for i, m in enumerate(messages):
         while draw(st.integers(0, 4)) == 0:
-            runt = draw(st.sampled_from([b"", b"\x00\x00\x00\x01", b"\x00\x00\x00\x00\x00\x00\x00\x08\x00", b"\x00"]))
+            n = draw(st.integers(0, 9))
+            runt = draw(st.binary(min_size=n, max_size=n))
+            if n >= 6 and draw(st.booleans()):
+                # a runt whose own "size field" claims exactly its length (must be skipped all the same)
+                runt = b"\x80\x01" + n.to_bytes(4, "big") + runt[6:]
             w.writepkt(_frame(runt, ethernet), ts=ts)
             ts += 0.001
             noise["runts"] += 1
         payload = m
         if len(m) >= 10 and draw(st.integers(0, 2)) == 0:
-            payload = m + draw(st.sampled_from([b"\x00\x00\x00\x00", b"\x00\x00\x00\x01"]))
+            payload = m + draw(st.one_of(st.sampled_from([b"\x00\x00\x00\x00", b"\x00\x00\x00\x01"]), st.binary(min_size=1, max_size=8)))
             noise["trailers"] += 1
         w.writepkt(_frame(payload, ethernet), ts=ts)
         ts += 0.001
